@@ -1,6 +1,9 @@
 (* SizeX_driver.ml - reads the C17 case file, builds the trie with the extracted
    model (the raw option spelling of the case through Model.normalize, no values), prints the Slim message of
-   Size.encode_trie field by field.  Parsing and printing only. *)
+   Size.encode_trie field by field, and whether the end-to-end byte model agrees with it
+   (SizeBitsCheck.models_same_bytes).  Parsing and printing only. *)
+(* the extracted module defines Coq's [string] (version constants of Wire.v): keep OCaml's *)
+type ostr = string
 open Sizemodel
 
 let rec pos_of_int (i : int) : positive =
@@ -14,7 +17,7 @@ let int_of_nat (n : nat) : int =
   let rec go n acc = match n with O -> acc | S m -> go m (acc + 1) in go n 0
 
 (* hexadecimal of an N of any width (64-bit words do not fit an OCaml int) *)
-let hex_of_n (x : n) : string =
+let hex_of_n (x : n) : ostr =
   match x with
   | N0 -> "0"
   | Npos p ->
@@ -44,7 +47,7 @@ let hexval c =
   | 'A' .. 'F' -> Char.code c - 55
   | _ -> failwith "hex"
 
-let bytes_of_hex (s : string) : byte list =
+let bytes_of_hex (s : ostr) : byte list =
   if s = "." then [] else begin
     let n = String.length s / 2 in
     let rec go i acc = if i < 0 then acc
@@ -52,19 +55,19 @@ let bytes_of_hex (s : string) : byte list =
     go (n - 1) []
   end
 
-let hex_of_bytes (l : byte list) : string =
+let hex_of_bytes (l : byte list) : ostr =
   match l with
   | [] -> "."
   | _ -> String.concat "" (List.map (fun b -> Printf.sprintf "%02x" (int_of_byte b)) l)
 
-let err_str (e : err) : string =
+let err_str (e : err) : ostr =
   match e with
   | EOutOfOrder i -> Printf.sprintf "err:order:%d" (int_of_nat i)
   | EStepTooLong -> "err:step"
   | EPanic _ -> "PANIC"
   | EFuel -> "FUEL"
 
-let split_ws (s : string) : string list =
+let split_ws (s : ostr) : ostr list =
   List.filter (fun x -> x <> "") (String.split_on_char ' ' s)
 
 let list_str f l = match l with [] -> "." | _ -> String.concat "," (List.map f l)
@@ -119,7 +122,11 @@ let run (inp : in_channel) (out : out_channel) =
             Printf.bprintf buf "ST %s\n" (list_str hex_of_n m.s_shorttable);
             dump_vl buf "IP" m.s_innerpref;
             dump_vl buf "LP" m.s_leafpref;
-            dump_vl buf "LV" m.s_leaves);
+            dump_vl buf "LV" m.s_leaves;
+            (* the end-to-end byte model (Bits.encode_trie + to_wire + marshal_gen) gives the
+               same bytes as the size model's message m = encode_trie t and 32 + size_slim m is
+               their length: models_same_bytes t, without computing m again *)
+            Printf.bprintf buf "X %d\n" (if same_bytes_with m t then 1 else 0));
          output_string out (Buffer.contents buf)
        | [] -> ()
        | _ -> failwith ("bad line: " ^ line)
